@@ -1273,7 +1273,7 @@ def cache_run(ctx, race=False):
     rng = vlib.SplitMix(ctx.seed ^ 0xC15CAC4E)
     if rp is not None:
         seq = [dict(rp['seq'], id=0)] if 'seq' in rp else []
-        conc = [dict(rp['conc'], id=0, rounds=max(2000, rp['conc'].get('rounds', 0) * 5))] if 'conc' in rp else []
+        conc = [dict(rp['conc'], id=0, tag=rp['conc'].get('tag', 'replay'), rounds=max(2000, rp['conc'].get('rounds', 0) * 5))] if 'conc' in rp else []
     else:
         seq = gen_cache_seq(rng, 70 if ctx.quick() else 600)
         conc = gen_cache_conc(rng, ctx.quick())
@@ -1380,7 +1380,7 @@ def cache_verdicts(ctx, raw):
                                      'threads: %s; final diagnostics: %s'
                                      % (j['tag'], oc['count'], j['rounds'], [[cache_describe(x) for x in t] for t in j['threads']],
                                         json.dumps(oc['final'][5])[:400]),
-                             'cache_case': {'conc': {k: j[k] for k in ('setup', 'threads', 'rounds', 'atomic')}}, 'outcome': oc},
+                             'cache_case': {'conc': {k: j[k] for k in ('setup', 'threads', 'rounds', 'atomic', 'tag')}}, 'outcome': oc},
                        signature={'kind': 'cache-not-linearizable', 'key': j['tag']})
     ev['cache_distinct_outcomes'] = n_out
     ev['cache_outcomes_not_sequential'] = len(nonseq)
@@ -1401,7 +1401,7 @@ def cache_verdicts(ctx, raw):
                              'what': 'scenario %s: results / final state of concurrent goroutines are not reachable by any interleaving of the '
                                      'atomic map accesses of Model/LspCache.v (Check.C15Check.agrees_cache_conc); threads: %s'
                                      % (j['tag'], [[cache_describe(x) for x in t] for t in j['threads']]),
-                             'cache_case': {'conc': {k: j[k] for k in ('setup', 'threads', 'rounds', 'atomic')}}, 'outcome': oc,
+                             'cache_case': {'conc': {k: j[k] for k in ('setup', 'threads', 'rounds', 'atomic', 'tag')}}, 'outcome': oc,
                              'n_outcomes': len(bad_conc)},
                        signature={'kind': 'cache-not-explained-by-atomic-steps', 'key': j['tag']})
     if bad_seq and len(ctx.violations) == n0:
